@@ -134,7 +134,7 @@ def H(name, call, props, tier="quick", unwind=12, expect=(), must_panic=False, d
 X_INDEX = {"fn": r"AnyVecRaw::<.*>::index_check", "desc": r"placeholder message|Index out of range"}
 X_INSERT = {"fn": r"AnyVecRaw::<.*>::insert_unchecked", "desc": r"placeholder message|Index out of range"}
 X_UNWRAP = {"fn": r"option::unwrap_failed|Option::<.*>::unwrap", "desc": r"."}
-X_TYPE = {"fn": r"stubs::assert_failed_stub", "desc": r"VP-EXPECTED: type mismatch"}
+X_TYPE = {"fn": r"assert_failed", "desc": r"VP-EXPECTED: type mismatch"}
 X_CAP = {"fn": r"Mem>?::expand|mem::Mem::expand", "desc": r"placeholder message|Can't change capacity"}
 X_RANGE = {"fn": r"any_vec::into_range|option::expect_failed|Option::<usize>::expect", "desc": r"assertion failed|overflow|placeholder|maximum usize"}
 X_STACKN = {"fn": r"StackN::<.*>::build|stack_n", "desc": r"placeholder message|Insufficient storage"}
